@@ -40,6 +40,18 @@ func dbgRender(args []string) {
 			x := scanXML(doc, c30Marker, false)
 			fmt.Fprintln(os.Stderr, "xml:", x.Err, x.NameHits)
 		}
+	case "c47":
+		t0 := time.Now()
+		r := c47Oracle(args[1])
+		fmt.Println(r.Outcome, r.Nontrivial, time.Since(t0))
+		if r.Fail != nil {
+			fmt.Println(r.Fail.Class)
+			fmt.Println(r.Fail.Detail)
+		}
+	case "fonts":
+		for _, ff := range fullFonts() {
+			fmt.Println(ff.key, ff.name, len(cmapRunes(ff.f)), ff.f.NumGlyphs())
+		}
 	case "c30":
 		p, err := strconv.Unquote(args[2])
 		if err != nil {
